@@ -9,8 +9,9 @@ import (
 // Gen produces structured, mostly valid inputs.  Every random choice comes from
 // one PRNG so that a (seed, case index) pair replays exactly.
 type Gen struct {
-	R         *rand.Rand
-	bigMerges int // BigMerge cycles through its three variants
+	R                                   *rand.Rand
+	bigMerges                           int // BigMerge cycles through its three variants
+	bigBuilds, twins, reencodes, exacts int
 }
 
 func NewGen(seed int64) *Gen { return &Gen{R: rand.New(rand.NewSource(seed))} }
@@ -40,15 +41,15 @@ func (g *Gen) ChunkMode() uint32 { return ChunkModes[g.R.Intn(len(ChunkModes))] 
 // BatchOpts steers a batch.
 type BatchOpts struct {
 	NDocs     int
-	NFields   int  // how many of fieldNames may be used (1..len)
-	NVocab    int  // how many vocabulary entries may be used
+	NFields   int // how many of fieldNames may be used (1..len)
+	NVocab    int // how many vocabulary entries may be used
 	IDPrefix  string
 	NoStored  bool // no stored values except _id
 	SparseSt  bool // most documents have no stored field at all (not even _id)
 	ForceDV   bool
 	BigValues bool
-	AllFields bool         // every document carries each of the NFields fields once (identical field lists)
-	Dense     bool         // few distinct terms, every field instance has several: long postings lists
+	AllFields bool                 // every document carries each of the NFields fields once (identical field lists)
+	Dense     bool                 // few distinct terms, every field instance has several: long postings lists
 	SkipField func(doc int) string // documents for which the named field is left out
 }
 
